@@ -17,6 +17,12 @@ CHECKS = {
  "C10": ("exploration", "statistics walker after every operation: typed and type-erased views field by field, list coherence, size/alignment/containment relations",
          "The walker of DESIGN 1.4 runs after every operation of the C01 histories for all allocator value layouts (header size 32..240, header alignment 16..64).",
          "DESIGN.md 2/C10"),
+ "C11": ("exploration", "wide-integer (u128) reference specification evaluated next to the real bump_up/bump_down/bump_prepare_up/bump_prepare_down compiled from /repo, on adversarial inputs under every truthful hint combination",
+         "The four pure computations are compiled from /repo/src/bumping.rs (#[path], the real source, rebuilt on every check) and compared with a specification written from the statement in arithmetic that cannot overflow; inputs are biased to the edges (addresses next to 0 and to the top of the address space, the negative-capacity dummy range, sizes around the remaining length +-1 and near isize::MAX, alignments up to 2^28, min alignment 1..16); debug builds additionally run the functions' own post-condition asserts and overflow checks, a Miri shard checks the arithmetic's UB-freedom. The input space (~2^200) cannot be enumerated; millions of edge-biased inputs per run is the right level for a pure function whose branches are few and arithmetic.",
+         "DESIGN.md 2/C11"),
+ "C12": ("exploration", "wide-integer specification of ChunkSizeConfig (hint/size/align_size, fit of the causing layout for every base address and granted size, growth factor, overflow reporting) + MonAlloc event log in the real arena (<=1 base call per allocation, with_capacity/reserve fit)",
+         "Pure part: the real size_config.rs compiled from /repo against a u128 model with synthetic header layouts (size 32..512, alignment 16..256), layouts up to alignment 2^28 and sizes up to the isize limit, over-granting, worst-case base addresses, arbitrary usize hints (overflow must be reported, never wrapped). Arena part: the arena interpreter with an allocation/reserve-heavy mix under all grant policies, where one user allocation may cause at most one base-allocator call and a chunk created for a layout must serve it.",
+         "DESIGN.md 2/C12"),
  "C13": ("exploration", "adjacency-aware reclaim expectations (same address after dealloc+alloc, in-place growth) and a monotone monitor on allocated() classified by the operation that ran",
          "Dealloc/realloc-heavy histories through every wrapper nesting; the ledger knows which block is the most recent and which are interior, so the expectation is never stricter than the statement.",
          "DESIGN.md 2/C13"),
@@ -38,7 +44,8 @@ m = {
   "add_only": True
  },
  "engines": [
-  {"name": "arena", "path": "harness/src/bin/arena.rs", "serves_properties": ["C01", "C02", "C03", "C05", "C10", "C13", "C14", "C18"], "kind_free_text": "generated operation histories over the real arena with online monitors (shadow ledger, stats walker, MonAlloc ledger), run natively (debug+release), under Miri, ASan and valgrind"}
+  {"name": "pure", "path": "harness/src/bin/pure.rs", "serves_properties": ["C11", "C12"], "kind_free_text": "the crate's dependency-free arithmetic files compiled from /repo via #[path] and run against a wide-integer reference specification"},
+  {"name": "arena", "path": "harness/src/bin/arena.rs", "serves_properties": ["C01", "C02", "C03", "C05", "C10", "C12", "C13", "C14", "C18"], "kind_free_text": "generated operation histories over the real arena with online monitors (shadow ledger, stats walker, MonAlloc ledger), run natively (debug+release), under Miri, ASan and valgrind"}
  ],
  "checks": [],
  "not_applicable": [
@@ -53,7 +60,7 @@ for pid, (cat, tech, text, ref) in CHECKS.items():
         "thorough_cmd": f"python3 /verif/check.py {pid} --tier thorough",
         "evidence_file": f"/verif/evidence/{pid}.json",
         "replay_cmd_template": f"python3 /verif/check.py {pid} --replay {{path}}",
-        "engine": "arena",
+        "engine": "pure" if pid == "C11" else ("pure+arena" if pid == "C12" else "arena"),
         "level_claimed": {"category": cat, "text": text, "design_ref": ref},
         "level_note": "held on the executions observed (counts in the evidence file); trusts the harness' own oracles, MonAlloc, the nightly toolchain, Miri/ASan/valgrind; paths no workload reached are not covered",
         "technique": tech,
